@@ -63,6 +63,7 @@ fn gen(rng: &mut Rng) -> (Vec<u64>, Vec<Op>) {
     let keys: Vec<u64> = vec![1, 2, 3, 256];
     let mut ops = Vec::new();
     let mut clock = 1u64;
+    let mut max_ever = 0u64;
     let len = rng.range(4, 14);
     for _ in 0..len {
         match rng.below(10) {
@@ -71,12 +72,16 @@ fn gen(rng: &mut Rng) -> (Vec<u64>, Vec<Op>) {
                 let k = *rng.pick(&keys);
                 if rng.chance(1, 5) { ops.push(Op::Unset(clock, k)); } else { ops.push(Op::Set(clock, k, rng.range(1, 3))); }
             }
-            6..=7 => { ops.push(Op::Commit(clock + 1)); clock += 1; }
+            6..=7 => { ops.push(Op::Commit(clock + 1)); max_ever = max_ever.max(clock); clock += 1; }
             _ => {
-                // a reorg on a committed boundary, inside the window
+                // a reorg on a committed boundary, inside the window: the engine refuses a target
+                // more than W below the highest block EVER finalised (max_block_number), not
+                // just W below the current height
                 ops.push(Op::Commit(clock + 1));
-                let back = rng.range(1, W.min(clock));
-                let n = clock - back;
+                max_ever = max_ever.max(clock);
+                let lo = max_ever.saturating_sub(W);
+                if lo + 1 > clock { clock += 1; continue; }
+                let n = rng.range(lo, clock - 1);
                 ops.push(Op::Reorg(n));
                 clock = n + 1;
             }
